@@ -332,6 +332,128 @@ def loopify(facts, fn, blk, known):
     return True
 
 
+MATCH_COMBINATORS = {
+    # callee -> (variant whose payload goes to the closure, does the closure's result become the whole result?)
+    'core::result::Result::or_else': ('Err', True),
+    'core::result::Result::and_then': ('Ok', True),
+    'core::result::Result::map': ('Ok', False),
+    'core::result::Result::map_err': ('Err', False),
+    'core::option::Option::and_then': ('Some', True),
+    'core::option::Option::map': ('Some', False),
+}
+VARIANT_INDEX = {'Ok': 0, 'Err': 1, 'None': 0, 'Some': 1}
+
+
+def _attach_and_inline_closure(facts, fn, origin_blk, call_blk, cdef, cf):
+    """the synthetic direct call of closure `cdef` at call_blk (made from the adaptor call at origin_blk) gets the
+    monomorphic edges of the closure instances that the adaptor reached, and is inlined"""
+    clo_insts = {}
+    for iid in facts.insts_of.get(fn.name, []):
+        seen, work, found = set(), [c for c, k in facts.edge_at.get((iid, origin_blk), ())], []
+        while work:
+            x = work.pop()
+            if x in seen:
+                continue
+            seen.add(x)
+            if facts.instances[x]['fn'] == cdef:
+                found.append(x)
+                continue
+            if facts.instances[x]['crate'] in ('core', 'alloc'):
+                work += [c for _b, c, _k in facts.out_edges.get(x, ())]
+        clo_insts[iid] = found
+        for ci in found:
+            facts.out_edges[iid].append((call_blk, ci, 'call'))
+            facts.in_edges[ci].append((iid, call_blk, 'call'))
+            facts.edge_at[(iid, call_blk)].append((ci, 'call'))
+    bmap = inline_call(facts, fn, call_blk, cf)
+    facts.inlined.setdefault(cdef, []).append((fn.name, call_blk))
+    for iid, cis in clo_insts.items():
+        for ci in cis:
+            for cb, tgt, kind in list(facts.out_edges.get(ci, ())):
+                nb = bmap.get(cb)
+                if nb is not None:
+                    facts.out_edges[iid].append((nb, tgt, kind))
+                    facts.in_edges[tgt].append((iid, nb, kind))
+                    facts.edge_at[(iid, nb)].append((tgt, kind))
+    cf.crate = 'fatfs-inlined'
+
+
+def matchify(facts, fn, blk):
+    """`r.or_else(|e| ..)`, `r.and_then(|v| ..)`, `r.map(|v| ..)`, `r.map_err(|e| ..)` (and the Option twins) with a closure the
+    pinned tree does not have: rewritten into the `match` they abbreviate, closure inlined on its arm"""
+    t = fn.blocks[blk]['term']
+    callee = t.get('callee') or ''
+    which, whole = MATCH_COMBINATORS[callee]
+    cdef, clo_local = _closure_def_of(fn, t['args'][1])
+    cf = facts.fns.get(cdef) if cdef else None
+    if cf is None or cf.argc != 2 or len(cf.blocks) > MAX_BLOCKS or t.get('ret') is None:
+        return False
+    types = fn.types
+    span = t['span']
+    r_op = t['args'][0]
+    r_p = r_op.get('m') or r_op.get('c')
+    if r_p is None or r_p['p']:
+        return False
+    r_ty = fn.locals[r_p['l']]['ty']
+    is_result = callee.startswith('core::result::')
+    adt = 'core::result::Result' if is_result else 'core::option::Option'
+    other = {'Ok': 'Err', 'Err': 'Ok', 'Some': 'None'}[which]
+    env_ty = cf.locals[1]['ty']
+    env_is_ref = types[env_ty].get('k') == 'ref'
+    arg_ty = cf.locals[2]['ty']
+    ret_ty = cf.locals[0]['ty']
+    isize_ty = _type_index(types, lambda x: x.get('k') == 'int' and x.get('bits') == 64 and x.get('signed'),
+                           lambda: {'s': 'isize', 'k': 'int', 'bits': 64, 'signed': True, 'ptr': True})
+
+    def new_local(ty, name=None):
+        fn.locals.append({'ty': ty, 'name': name})
+        return len(fn.locals) - 1
+
+    L_r = new_local(r_ty)
+    L_d = new_local(isize_ty)
+    L_a = new_local(arg_ty)
+    L_env = new_local(env_ty)
+    L_v = new_local(ret_ty)
+    pl = lambda l, proj=None: {'l': l, 'p': proj or []}
+    mv = lambda l, proj=None: {'m': pl(l, proj)}
+    asg = lambda lhs, rv: {'k': 'assign', 'lhs': lhs, 'rv': rv, 'span': span}
+    base = len(fn.blocks)
+    SW, CL, AF, OT, U = base, base + 1, base + 2, base + 3, base + 4
+    dc = lambda v: [{'vi': VARIANT_INDEX[v], 'dc': v}, {'f': 0, 'n': '0'}]
+    ctor = lambda v, ops: {'k': 'agg', 'ak': 'adt', 'adt': adt, 'variant': v, 'vi': VARIANT_INDEX[v], 'ops': ops, 'fields': []}
+    blocks = []
+    # SW: switch discr(r)
+    blocks.append({'cleanup': False, 'stmts': [asg(pl(L_d), {'k': 'discr', 'p': pl(L_r)})],
+                   'term': {'k': 'switch', 'discr': mv(L_d), 'targets': [[VARIANT_INDEX[which], CL], [VARIANT_INDEX[other], OT]],
+                            'otherwise': U, 'span': span}})
+    # CL: a = payload ; env ; v = closure(env, a)
+    env_rv = {'k': 'ref', 'mut': bool(types[env_ty].get('mut')), 'p': pl(clo_local)} if env_is_ref else \
+        {'k': 'use', 'a': {'m': pl(clo_local)}}
+    blocks.append({'cleanup': False, 'stmts': [asg(pl(L_a), {'k': 'use', 'a': mv(L_r, dc(which))}), asg(pl(L_env), env_rv)],
+                   'term': {'k': 'call', 'callee': cdef, 'callee_crate': 'fatfs', 'args': [mv(L_env), mv(L_a)],
+                            'dest': pl(L_v), 'dest_ty': ret_ty, 'ret': AF, 'span': span, 'unwind': None, 'func': None,
+                            'gargs': [], 'synthetic': True}})
+    # AF: dest = v  /  dest = Variant(v)
+    blocks.append({'cleanup': False,
+                   'stmts': [asg(copy.deepcopy(t['dest']), {'k': 'use', 'a': mv(L_v)} if whole else ctor(which, [mv(L_v)]))],
+                   'term': {'k': 'goto', 'ret': t['ret'], 'span': span}})
+    # OT: the other variant passes through
+    if other == 'None':
+        ot_rv = ctor('None', [])
+    else:
+        ot_rv = ctor(other, [mv(L_r, dc(other))])
+    blocks.append({'cleanup': False, 'stmts': [asg(copy.deepcopy(t['dest']), ot_rv)],
+                   'term': {'k': 'goto', 'ret': t['ret'], 'span': span}})
+    blocks.append({'cleanup': False, 'stmts': [], 'term': {'k': 'unreachable', 'span': span}})
+    fn.blocks.extend(blocks)
+    fn.blocks[blk]['stmts'].append(asg(pl(L_r), {'k': 'use', 'a': copy.deepcopy(r_op)}))
+    fn.blocks[blk]['term'] = {'k': 'goto', 'ret': SW, 'span': span, 'matchified': callee}
+    fn._succ = fn._pred = fn._dom = fn._pdom = fn._reach = None
+    fn.__dict__.pop('_bool_switch_cache', None)
+    _attach_and_inline_closure(facts, fn, blk, CL, cdef, cf)
+    return True
+
+
 def normalise_loops(facts):
     known = load_known()
     if known is None:
@@ -349,6 +471,24 @@ def normalise_loops(facts):
                         loopify(facts, f, bi, known)
                     except Exception:
                         pass
+    # combinators over Result / Option with a closure the pinned tree does not have -> the match they stand for
+    for _round in range(4):
+        changed = False
+        for n, f in list(facts.fns.items()):
+            if f.crate != 'fatfs':
+                continue
+            for bi in range(len(f.blocks)):
+                t = f.blocks[bi]['term']
+                if t['k'] == 'call' and t.get('callee') in MATCH_COMBINATORS and len(t.get('args') or []) == 2:
+                    cdef, _l = _closure_def_of(f, t['args'][1])
+                    if cdef and cdef not in known and cdef in facts.fns and facts.fns[cdef].crate == 'fatfs':
+                        try:
+                            if matchify(facts, f, bi):
+                                changed = True
+                        except Exception:
+                            pass
+        if not changed:
+            break
 
 
 # ---------------------------------------------------------------------------------------------------------------
@@ -464,3 +604,46 @@ def thread_bools(facts):
             fn._succ = fn._pred = fn._dom = fn._pdom = fn._reach = None
             fn.__dict__.pop('_bool_switch_cache', None)
     facts.threaded = n_threaded
+
+
+# ---------------------------------------------------------------------------------------------------------------
+# Renamed private fields: a few rules are tied to a field by the role it plays (the write-back latch of the cached
+# directory entry / of the FS-information sector). The role is recognisable from the type - it is the only `bool` field of
+# its struct - so a renamed latch is given its pinned name back in the fact base.
+
+ROLE_FIELDS = {
+    'fatfs::dir_entry::DirEntryEditor': ('bool', 'dirty'),
+    'fatfs::fs::FsInfoSector': ('bool', 'dirty'),
+}
+
+
+def canonical_field_names(facts):
+    renames = {}
+    for adt, (kind, canon) in ROLE_FIELDS.items():
+        a = facts.adts.get(adt)
+        if not a or not a.get('variants'):
+            continue
+        fields = a['variants'][0]['fields']
+        types = facts.api['types']
+        cands = [f for f in fields if (types[f['ty']] or {}).get('k') == kind]
+        if len(cands) == 1 and cands[0]['name'] != canon and not any(f['name'] == canon for f in fields):
+            renames[cands[0]['name']] = canon
+            cands[0]['name'] = canon
+    if not renames:
+        return
+
+    def fix(x):
+        if isinstance(x, dict):
+            if 'f' in x and x.get('n') in renames:
+                x['n'] = renames[x['n']]
+            if isinstance(x.get('fields'), list):
+                x['fields'] = [renames.get(f, f) for f in x['fields']]
+            for v in x.values():
+                fix(v)
+        elif isinstance(x, list):
+            for v in x:
+                fix(v)
+    for fn in facts.fns.values():
+        if fn.crate.startswith('fatfs'):
+            fix(fn.blocks)
+    facts.renamed_fields = renames
